@@ -4,6 +4,8 @@
 //
 //	c08 progs  <progs.ndjson>     TLC programs, every spelling variant
 //	c08 corpus <listfile>         .templ files of the repository (one path per line)
+//	c08 layout <fmt.ndjson>       conformance of the layout model: FmtLayout.tla's Fmt(p), printed in the canonical
+//	                              spelling, must be what the real formatter prints for every spelling of p
 package main
 
 import (
@@ -363,6 +365,8 @@ func main() {
 		progs(os.Args[2])
 	case "corpus":
 		corpus(os.Args[2])
+	case "layout":
+		layout(os.Args[2])
 	default:
 		vhlib.Fatal("unknown mode")
 	}
@@ -473,4 +477,67 @@ func corpus(list string) {
 		vhlib.Fatal("%v", err)
 	}
 	vhlib.Summary(map[string]any{"files": n, "rejected": rejected, "c08": c08, "c09": c09})
+}
+
+type layoutRec struct {
+	Prog []templang.Node `json:"prog"`
+	Fmt  []templang.Node `json:"fmt"`
+}
+
+// layout compares the layout model's prediction with the real formatter. A difference is model drift
+// (the property is decided by the progs mode on real output), reported so the evidence can say how far
+// the model-level results (idempotence of Fmt) carry over to the code.
+func layout(path string) {
+	var all []layoutRec
+	err := vhlib.Each(path, func(line []byte) error {
+		var r layoutRec
+		if err := json.Unmarshal(line, &r); err != nil {
+			return err
+		}
+		all = append(all, r)
+		return nil
+	})
+	if err != nil {
+		vhlib.Fatal("%v", err)
+	}
+	workers := runtime.NumCPU()
+	type res struct{ n, agree, drift int }
+	results := make([]res, workers)
+	var wg sync.WaitGroup
+	for w := 0; w < workers; w++ {
+		wg.Add(1)
+		go func(w int) {
+			defer wg.Done()
+			r := &results[w]
+			for i := w; i < len(all); i += workers {
+				rec := all[i]
+				want := src(rec.Fmt, 0)
+				for v := templang.Variant(0); v < templang.Variants; v++ {
+					s := src(rec.Prog, v)
+					got, err := realFormat(s)
+					r.n++
+					if err == nil && got == want {
+						r.agree++
+						continue
+					}
+					r.drift++
+					if r.drift <= 2 {
+						d := "formatter error"
+						if err == nil {
+							d = firstDiff(want, got)
+						}
+						vhlib.Drift("layout model and formatter disagree: "+d, report{Variant: int(v), Source: s, Formatted: got, Detail: "model predicts: " + want})
+					}
+				}
+			}
+		}(w)
+	}
+	wg.Wait()
+	var tot res
+	for _, r := range results {
+		tot.n += r.n
+		tot.agree += r.agree
+		tot.drift += r.drift
+	}
+	vhlib.Summary(map[string]any{"programs": len(all), "cases": tot.n, "agree": tot.agree, "drift": tot.drift})
 }
